@@ -48,6 +48,7 @@ class Shadow:
 
     def remove_node(self, k):
         del self.nodes[k]
+        self.removed = (getattr(self, 'removed', []) + [k])[-20:]
         for e in [e for e in self.edges if k in e]:
             del self.edges[e]
         for t in list(self.inter):
@@ -263,7 +264,7 @@ def run_history(rnd, nops, b):
         keys = list(s.nodes)
         op = rnd.choice(['add_node', 'add_node', 'add_existing', 'add_nodes_from', 'remove_node', 'remove_highest',
                          'remove_nodes_from', 'add_edge', 'add_edge', 'remove_edge', 'add_interaction',
-                         'add_interaction', 'add_interaction_bad', 'add_or_replace', 'remove_interaction',
+                         'add_interaction', 'add_interaction_bad', 'add_or_replace', 'add_or_replace_bad', 'remove_interaction',
                          'remove_interaction_bad', 'remove_matching', 'copy', 'subgraph', 'merge', 'merge', 'merge',
                          'merge_block', 'make_edges', 'merge_all', 'merge_chains', 'set_attr', 'set_attr'])
         entry = [op, idx]
@@ -370,6 +371,26 @@ def run_history(rnd, nops, b):
                 except KeyError:
                     pass
                 b.feat('op_add_interaction_unknown_atom')
+            elif op == 'add_or_replace_bad' and keys:
+                # an atom that is not (or no longer) there; existing interaction on the other atoms or not
+                t = rnd.choice(TYPES)
+                n = ARITY[t]
+                if len(keys) < n - 1:
+                    continue
+                gone = [k for k in getattr(s, 'removed', []) if k not in s.nodes]
+                absent = rnd.choice(gone) if gone and rnd.random() < 0.7 else 10 ** 6 + step
+                atoms = rnd.sample(keys, n - 1)
+                atoms.insert(rnd.randrange(n), absent)
+                atoms = tuple(atoms)
+                try:
+                    m.add_or_replace_interaction(t, atoms, ['1', '0.5'], meta={})
+                except KeyError:
+                    pass
+                if any(tuple(i.atoms) == atoms for i in m.interactions.get(t, [])):
+                    return ('unknown-atom-accepted', {'type': t, 'atoms': atoms, 'via': 'add_or_replace_interaction',
+                                                      'absent': absent}), log + [entry + [t, atoms]]
+                entry += [t, atoms]
+                b.feat('op_add_or_replace_unknown_atom')
             elif op == 'remove_interaction' and s.inter:
                 t = rnd.choice(sorted(s.inter))
                 i = rnd.choice(s.inter[t])
